@@ -334,6 +334,8 @@ def oracle(case, out):
     nodrain = set()
     held = set()                # peers whose connection task(s) are currently not being polled (`hold`)
     held_since_opened = set()   # a hold was placed on the peer's task since its stream was reported opened
+    unhold_step = {}            # peer -> op index of the `unhold` that ended the latest hold
+    prev_events = -1            # op index of the previous `events` op
     late = set()                # the protocol reported opened / open failure for the peer while an old task was held:
                                 # its NotificationStreamClosed is late (finding late-closed-report)
 
@@ -366,6 +368,12 @@ def oracle(case, out):
               f"not answered while the connection lasted", i, dangling_pending_open=(p in dangling),
               peer=p)
 
+    def overtakes_held(p):
+        # an event drained now was put on the user channel after the previous drain; it overtakes the
+        # NotificationStreamClosed of the old stream of `p` because of the scheduler iff the old stream's task was
+        # being held back at some moment since then
+        return p in held or (p in held_since_opened and unhold_step.get(p, -1) > prev_events)
+
     for i in range(n):
         op, o = case[i], out[i]
         t = op.split()
@@ -396,6 +404,8 @@ def oracle(case, out):
                 held.add(peer)
                 held_since_opened.add(peer)
         if t[0] == "unhold":
+            if peer in held:
+                unhold_step[peer] = i
             held.discard(peer)
         if t[0] == "conn":
             connected.add(peer)
@@ -442,7 +452,7 @@ def oracle(case, out):
                 last_validate_step[p] = i
                 round_answer[p] = None
             elif kind == "opened":
-                if p in held:
+                if view_open.get(p) and overtakes_held(p):
                     late.add(p)
                 if view_open.get(p):
                     v("opened-twice", f"stream to peer {p} reported opened while already open", i,
@@ -480,7 +490,7 @@ def oracle(case, out):
                     accept_steps[p] = []
                     quiet[p] = p in connected and p not in subin_since_events
             elif kind == "fail":
-                if p in held:
+                if view_open.get(p) and overtakes_held(p):
                     late.add(p)
                 if view_open.get(p):
                     v("failure-while-open", f"open failure for peer {p} while its stream is open", i,
@@ -508,6 +518,7 @@ def oracle(case, out):
             for kind, p, extra in parse_events(o):
                 if kind in ("opened", "closed"):
                     boundary_step[p] = i
+            prev_events = i
         if t[0] in ("accept", "reject"):
             quiet[peer] = False
         if t[0] in ("accept", "reject") and peer in last_validate_step and round_answer.get(peer) is None:
